@@ -295,11 +295,8 @@ func (br *xmpReader) readTagValue() (buf []byte, err error) {
 			return
 		}
 		if i == 0 {
-			if buf[i] == '>' {
-				i++
-			} else if buf[i] == '/' && buf[i+1] == '>' {
-				i += 2
-			}
+			// (the end of the start tag has been consumed by whoever read the tag:
+			// a '>' here is the first character of the value)
 			// removes white space and new lines prefixes
 			for ; i < len(buf); i++ {
 				if isSpace(buf[i]) {
